@@ -78,7 +78,7 @@ def qn_mask_and_outer(chk, src, rule):
             return Sym(f"eq({self._name}, {o!r})")
 
         __hash__ = Sym.__hash__ if hasattr(Sym, "__hash__") else None
-    it = SymInterp(src, None, {"np": Sym("np", all=lambda m, axis=None: Sym(f"all({m!r}, axis={axis})"), array=lambda x: x)})
+    it = SymInterp(src, None, {"np": Sym("np", all=lambda m, axis=None: Sym(f"all({m!r}, axis={axis})"), any=lambda m, axis=None: Sym(f"any({m!r}, axis={axis})"), array=lambda x: x)})
     out = it.call_function(gm, [QM("qnmat"), Sym("qntot")])
     chk.ob(rule, "get_qn_mask", repr(out) == "all(eq(qnmat, qntot), axis=-1)", gm.where, repr(out), "all(qnmat == qntot, axis=-1)", line=gm.node.lineno,
            detail="an element is allowed iff every conserved quantity of its label equals the total; `any` or another axis admits elements outside the sector")
